@@ -74,6 +74,13 @@ type poaOp struct {
 	Tx     int
 }
 
+// jailChangedEarly: the validator's jailed flag differs between the two snapshots (BeginBlock jailed it, or an unjail ran)
+func jailChangedEarly(prev, s *Snapshot, id int) bool {
+	a, ok1 := prev.Vals[id]
+	b, ok2 := s.Vals[id]
+	return ok1 && ok2 && a.Jailed != b.Jailed
+}
+
 func successfulOps(bt *BlockTrace) []poaOp {
 	var out []poaOp
 	for i, t := range bt.Spec.Txs {
@@ -295,6 +302,42 @@ func Monitors(h History, tr *Trace) []Failure {
 		}
 		capInPlay := prev.MaxVals != s.MaxVals || capBinding(prev) || capBinding(s)
 		owner := consOwner(s)
+		// C14: a request that would not change the validator's voting power is rejected (judged on the first PoA
+		// operation aimed at the validator in the block, against the power it held when the block began)
+		{
+			first := map[int]bool{}
+			for _, t := range bt.Spec.Txs {
+				for _, m := range t.Msgs {
+					if m.Kind == "setpower" || m.Kind == "remove" {
+						if !first[m.Val] {
+							first[m.Val] = true
+						}
+					}
+				}
+			}
+			seen := map[int]bool{}
+			for i, t := range bt.Spec.Txs {
+				for _, m := range t.Msgs {
+					if m.Kind != "setpower" && m.Kind != "remove" {
+						continue
+					}
+					if seen[m.Val] {
+						continue
+					}
+					seen[m.Val] = true
+					if m.Kind != "setpower" || i >= len(bt.TxOut) || bt.TxOut[i] != "pass" || len(t.Msgs) != 1 {
+						continue
+					}
+					pv, ok := prev.Vals[m.Val]
+					if !ok || pv.Status != 3 || pv.Jailed || jailChangedEarly(prev, s, m.Val) {
+						continue
+					}
+					if cur, in := prev.CometNext[pv.Cons]; in && consOwner(prev)[pv.Cons] == m.Val && cur == int64(m.Power/1_000_000) && !capBinding(prev) {
+						add("C14", "C14/same-power-request-accepted", ht, "validator %d holds power %d, request %d", m.Val, cur, m.Power)
+					}
+				}
+			}
+		}
 		for v, op := range lastOp {
 			if v < 0 || v >= poolSize {
 				continue
